@@ -420,7 +420,7 @@ def run(ctx):
                       case={"keys": tr["keys"], "progs": tr["progs"], "scheduled": tr["scheduled"],
                             "order": [(e["k"], e["t"]) for e in tr["ev"] if e["k"] in "SE"]})
     bad = set(i for (i, l, c) in fails)
-    ctx.extra["binding_selftest"] = selftest([t for i, t in enumerate(traces) if i not in bad])
+    ctx.selftest(selftest, [t for i, t in enumerate(traces) if i not in bad])
     ctx.extra["histories"] = {"single_thread_exhaustive": n_single, "two_thread_schedules": len(scheds2),
                               "simulated_len_le_50": len(sims), "free_running_2_to_8_threads": nfree}
     ctx.extra["concrete_calls"] = sum(len(v) for v in lib.calls.values())
